@@ -271,7 +271,9 @@ pub fn nesting_family(ctx: &mut Ctx) {
         t
     };
     for depth in [40usize, 64] {
-        for shape in 0..2 {
+        for shape in 0..3 {
+        // shape 0: mixed nest, searches fail; shape 2: mixed nest, searches succeed at the deepest point; shape 1: pure chains
+        let succeed = shape == 2;
         for name in &names {
             let id = match ctx.take() {
                 Some(id) => id,
@@ -280,9 +282,9 @@ pub fn nesting_family(ctx: &mut Ctx) {
             ctx.transitions += 1;
             ctx.states += 1;
             let mut m0 = M::default();
-            // second item: for even case ids a different nest (searches fail), for odd ones the innermost list of the
+            // second item: a different nest (searches fail) or the innermost list of the
             // top item (searches succeed at the deepest point)
-            m0.c = vec![nest(depth, 1), if id % 2 == 0 { nest(depth, 2) } else { Tree::L(vec![Tree::I(1)]) }, nest(depth, 1)];
+            m0.c = vec![nest(depth, 1), if !succeed { nest(depth, 2) } else { Tree::L(vec![Tree::I(1)]) }, nest(depth, 1)];
             m0.e = vec![nest(depth, 3), nest(depth, 3), Tree::I(9)];
             m0.i = vec![depth as i32, 1, 0, 2];
             if shape == 1 {
@@ -318,7 +320,7 @@ pub fn nesting_family(ctx: &mut Ctx) {
                 }
             };
             ctx.nontrivial_mark(&format!("{}|{}|{}", name, depth, shape));
-            ctx.record(id, &okey, verdict, || format!("{} on items nested {} levels deep ({})", name, depth, if shape == 0 { "mixed nest" } else { "pure chain" }));
+            ctx.record(id, &okey, verdict, || format!("{} on items nested {} levels deep ({})", name, depth, if shape == 0 { "mixed nest, searches fail" } else if shape == 2 { "mixed nest, searches succeed at the deepest point" } else { "pure chain" }));
         }
         }
     }
